@@ -48,7 +48,13 @@ type c19Res struct {
 	part  int32
 }
 
-var c19Resources = []c19Res{{"t0", 0}, {"t0", 1}, {"t0", 2}, {"t1", 0}, {"t1", 1}, {"ghost", 0}}
+var c19Resources = func() []c19Res {
+	rs := []c19Res{{"t0", 0}, {"t0", 1}, {"t0", 2}, {"t1", 0}, {"t1", 1}, {"ghost", 0}}
+	for p := int32(0); p < 32; p++ {
+		rs = append(rs, c19Res{"wide", p}) // resources 6..37: one topic with many partitions
+	}
+	return rs
+}()
 
 // ---- store wrapper: etcd availability under schedule control
 
@@ -113,16 +119,39 @@ var errC19Injected = errors.New("verif: injected etcd transaction failure")
 
 type c19KV struct {
 	clientv3.KV
-	fail *atomic.Bool
+	fail   *atomic.Bool
+	mu     sync.Mutex
+	armed  bool // park the caller right after its next lease transaction has executed
+	parked chan struct{}
+	resume chan struct{}
 }
 
 type c19Txn struct {
 	clientv3.Txn
 	fail *atomic.Bool
+	kv   *c19KV
 }
 
 func (k *c19KV) Txn(ctx context.Context) clientv3.Txn {
-	return &c19Txn{Txn: k.KV.Txn(ctx), fail: k.fail}
+	// the code's 5 s per-transaction timeout must not fire while the call is parked
+	return &c19Txn{Txn: k.KV.Txn(context.WithoutCancel(ctx)), fail: k.fail, kv: k}
+}
+
+// gatePost parks the calling goroutine between two etcd round trips of Acquire.
+func (k *c19KV) gatePost() {
+	k.mu.Lock()
+	if !k.armed {
+		k.mu.Unlock()
+		return
+	}
+	k.armed = false
+	parked, resume := k.parked, k.resume
+	k.mu.Unlock()
+	close(parked)
+	select {
+	case <-resume:
+	case <-time.After(30 * time.Second):
+	}
 }
 func (t *c19Txn) If(cs ...clientv3.Cmp) clientv3.Txn   { t.Txn = t.Txn.If(cs...); return t }
 func (t *c19Txn) Then(ops ...clientv3.Op) clientv3.Txn { t.Txn = t.Txn.Then(ops...); return t }
@@ -131,7 +160,9 @@ func (t *c19Txn) Commit() (*clientv3.TxnResponse, error) {
 	if t.fail.Load() {
 		return nil, errC19Injected
 	}
-	return t.Txn.Commit()
+	resp, err := t.Txn.Commit()
+	t.kv.gatePost()
+	return resp, err
 }
 
 type c19Lease struct {
@@ -186,6 +217,7 @@ type c19World struct {
 	s3       *c19S3
 	a, b     *metadata.PartitionLeaseManager
 	aLease   *c19Lease
+	aKV      *c19KV
 	etcdUp   atomic.Bool
 	txnFail  atomic.Bool
 	pending  chan string
@@ -224,7 +256,7 @@ func c19New(admin *clientv3.Client, endpoint string) (*c19World, error) {
 		return nil, err
 	}
 	w.store = store
-	for _, spec := range []metadata.TopicSpec{{Name: "t0", NumPartitions: 3, ReplicationFactor: 1}, {Name: "t1", NumPartitions: 2, ReplicationFactor: 1}} {
+	for _, spec := range []metadata.TopicSpec{{Name: "t0", NumPartitions: 3, ReplicationFactor: 1}, {Name: "t1", NumPartitions: 2, ReplicationFactor: 1}, {Name: "wide", NumPartitions: 32, ReplicationFactor: 1}} {
 		if _, err := store.CreateTopic(ctx, spec); err != nil {
 			return nil, fmt.Errorf("create topic %s: %w", spec.Name, err)
 		}
@@ -233,7 +265,8 @@ func c19New(admin *clientv3.Client, endpoint string) (*c19World, error) {
 	h := newHandler(store, w.s3, brokerInfo, c19Logger())
 	w.aLease = &c19Lease{Lease: admin.Lease, lose: map[clientv3.LeaseID]func(){}}
 	ac := clientv3.NewCtxClient(ctx)
-	ac.KV = &c19KV{KV: admin.KV, fail: &w.txnFail}
+	w.aKV = &c19KV{KV: admin.KV, fail: &w.txnFail}
+	ac.KV = w.aKV
 	ac.Lease = w.aLease
 	ac.Watcher = admin.Watcher
 	w.a = metadata.NewPartitionLeaseManager(ac, metadata.PartitionLeaseConfig{BrokerID: "A", LeaseTTLSeconds: 120, Logger: c19Logger()})
@@ -267,22 +300,41 @@ func (w *c19World) obs() string {
 		os_ = append(os_, strconv.Itoa(i))
 	}
 	os_ = append(os_, extra...)
-	kvs := make([]string, len(c19Resources))
-	for i := range kvs {
-		kvs[i] = fmt.Sprintf("%d:-", i)
+	var bown []int
+	for _, id := range w.b.VerifLM().VerifOwned() {
+		if i, ok := idx[id]; ok {
+			bown = append(bown, i)
+		}
 	}
+	sort.Ints(bown)
+	var bs []string
+	for _, i := range bown {
+		bs = append(bs, strconv.Itoa(i))
+	}
+	present := map[int]string{}
+	var kvs []string
 	resp, err := w.admin.Get(context.Background(), metadata.PartitionLeasePrefix()+"/", clientv3.WithPrefix())
 	if err == nil {
 		for _, kv := range resp.Kvs {
 			rid := strings.TrimPrefix(string(kv.Key), metadata.PartitionLeasePrefix()+"/")
 			if i, ok := idx[rid]; ok {
-				kvs[i] = fmt.Sprintf("%d:%s", i, string(kv.Value))
+				present[i] = string(kv.Value)
 			} else {
 				kvs = append(kvs, "?"+rid+"="+string(kv.Value))
 			}
 		}
 	}
-	return fmt.Sprintf("own=%s kv=%s", strings.Join(os_, ","), strings.Join(kvs, ","))
+	var ids []int
+	for i := range present {
+		ids = append(ids, i)
+	}
+	sort.Ints(ids)
+	var sorted []string
+	for _, i := range ids {
+		sorted = append(sorted, fmt.Sprintf("%d:%s", i, present[i]))
+	}
+	kvs = append(sorted, kvs...)
+	return fmt.Sprintf("own=%s bown=%s kv=%s", strings.Join(os_, ","), strings.Join(bs, ","), strings.Join(kvs, ","))
 }
 
 func c19Batch(valid bool) []byte {
@@ -522,6 +574,54 @@ func (w *c19World) exec(f []string) string {
 			close(w.s3.resume)
 			w.s3.mu.Unlock()
 			return "parked"
+		case <-time.After(10 * time.Second):
+			return "hang"
+		}
+	case f[0] == "lproduce" && len(f) == 3:
+		acks, err := strconv.Atoi(f[1])
+		parts, ok := c19ParseParts(f[2:])
+		if err != nil || !ok || w.pending != nil {
+			return "bad-op"
+		}
+		w.aKV.mu.Lock()
+		w.aKV.armed = true
+		w.aKV.parked = make(chan struct{})
+		w.aKV.resume = make(chan struct{})
+		parked := w.aKV.parked
+		w.aKV.mu.Unlock()
+		w.pending = make(chan string, 1)
+		go func(ch chan string) { ch <- w.produce(int16(acks), parts) }(w.pending)
+		select {
+		case <-parked:
+			return "parked"
+		case r := <-w.pending:
+			// no lease transaction was needed (already owned / shutting down): result at lresume
+			w.pending = make(chan string, 1)
+			w.pending <- r
+			w.aKV.mu.Lock()
+			w.aKV.armed = false
+			w.aKV.mu.Unlock()
+			return "parked"
+		case <-time.After(10 * time.Second):
+			return "hang"
+		}
+	case f[0] == "lresume" && len(f) == 1:
+		if w.pending == nil {
+			return "bad-op"
+		}
+		w.aKV.mu.Lock()
+		if w.aKV.resume != nil {
+			select {
+			case <-w.aKV.resume:
+			default:
+				close(w.aKV.resume)
+			}
+		}
+		w.aKV.mu.Unlock()
+		select {
+		case r := <-w.pending:
+			w.pending = nil
+			return r
 		case <-time.After(10 * time.Second):
 			return "hang"
 		}
